@@ -21,14 +21,14 @@ import (
 func init() {
 	Registry["C10"] = &Check{
 		Scenarios: c10Scenarios,
-		Rule: "server side: every history of <=4 (thorough 5) peer messages over {acceptable CER, CER without common application, retransmitted CER, DWR, RAR (app 0), RAA, CCR (app 4), ACR (app 3)}; client side (sm.Client.NewConn): every history of <=4 (thorough 5) messages over {success CEA, failing CEA, application-less CEA, DWR, RAR, RAA, CCA} sent in reply to the CER; application handlers registered by short name, by index and as catch-all (three configurations), each after attempts to register CER / CEA / DWR by name and by index; each history delivered in one segment and one segment per message. One deterministic schedule per history on the instrumented build (the quantifier is over histories; the scheduler supplies determinism and an exact notion of quiescence). Oracle: the sequence of application-handler invocations equals the gate model (invoked iff the handshake succeeded earlier on this connection), refused registrations never run, and the built-in CEA/DWA are still produced.",
+		Rule: "server side: every history of <=4 (thorough 5) peer messages over {acceptable CER, CER without common application, retransmitted CER, DWR, RAR (app 0), RAA, CCR (app 4), ACR (app 3)}; client side (sm.Client.NewConn): every history of <=4 (thorough 5) messages over {success CEA, failing CEA, application-less CEA, a CER sent by the peer, DWR, RAR, RAA, CCA} sent in reply to the CER; application handlers registered by short name, by index and as catch-all (three configurations), each after attempts to register CER / CEA / DWR by name and by index; each history delivered in one segment and one segment per message. One deterministic schedule per history on the instrumented build (the quantifier is over histories; the scheduler supplies determinism and an exact notion of quiescence). Oracle: the sequence of application-handler invocations equals the gate model (invoked iff the handshake succeeded earlier on this connection), refused registrations never run, and the built-in CEA/DWA are still produced.",
 		Assume: []string{"single default schedule per history", "reference gate model {handshake done, closed}"},
 		QuickBudget: 120, ThoroughBudget: 1800,
 	}
 }
 
 var c10ServerAlpha = []string{"cer", "cer-noapp", "cer-retx", "dwr", "rar", "raa", "ccr", "acr"}
-var c10ClientAlpha = []string{"cea", "cea-fail", "cea-noapp", "dwr", "rar", "raa", "cca"}
+var c10ClientAlpha = []string{"cea", "cea-fail", "cea-noapp", "cer", "dwr", "rar", "raa", "cca"}
 
 func c10Msg(kind string, seq int) []byte {
 	id := uint32(100 + seq)
@@ -350,7 +350,8 @@ func c10Client(r *SeqResult, cfg string, oneSeg bool, hists [][]string) {
 				if !hs && !failed {
 					failed = true
 				}
-			case "dwr":
+			case "dwr", "cer":
+				// a CER sent by the peer to a client is ignored; a DWR is answered: neither opens the gate
 			default:
 				if hs {
 					want = append(want, c10Expect(cfg, k, i))
